@@ -42,12 +42,14 @@ def unit_source(cases, idxs=None, prelude=PRELUDE):
 
 
 def compile_with(tree, comp, src_path, exe, extra=()):
+    libs = [x for x in extra if x.startswith('-l')]        # libraries go after the objects that need them
+    extra = [x for x in extra if not x.startswith('-l')]
     if comp == 'chibicc':
-        cmd = [tree.cc, '-o', exe] + list(extra) + [src_path]
+        cmd = [tree.cc, '-o', exe] + list(extra) + [src_path] + libs
         return core.run(cmd, timeout=30)
     if comp == 'gcc':
-        return core.run(GCC + list(extra) + ['-o', exe, src_path], timeout=60)
-    return core.run(CLANG + list(extra) + ['-o', exe, src_path], timeout=60)
+        return core.run(GCC + list(extra) + ['-o', exe, src_path] + libs, timeout=60)
+    return core.run(CLANG + list(extra) + ['-o', exe, src_path] + libs, timeout=60)
 
 
 def errsum(msg):
